@@ -18,9 +18,10 @@ PROPS = {
  },
  "C02": {
   "props_modules": ["Ps3.Props.C02"],
-  "streams": [{"name": "c02", "bad_obs": BAD_OBS}, {"name": "c10", "bad_obs": BAD_OBS}],
+  "streams": [{"name": "c02", "bad_obs": BAD_OBS}, {"name": "c10", "bad_obs": BAD_OBS}, {"name": "c13"}],
   "rule": "files of boundary sizes (0,1,2047..2049,65535..65537,…, sparse files past 4 GiB with marker bytes) x OPEN_FILE then 1-6 READ_FILE / READ_FILE_CRITICAL with (offset,limit) from structural boundaries incl. offset>=size, limit 0, crossing EOF, interleaved with other requests; "
-          "oracle = the harness's own copy of the content; distinct = (size, request list); the third kind of served object, the decrypting view, is covered by running the c10 stream here as well (aligned and unaligned reads of encrypted images against the crypto/aes reference)",
+          "oracle = the harness's own copy of the content; distinct = (size, request list); the third kind of served object, the decrypting view, is covered by running the c10 stream here as well (aligned and unaligned reads of encrypted images against the crypto/aes reference); "
+          "'a read that cannot be satisfied ends the connection after at most a correct prefix' is exercised under I/O faults by running the c13 stream here too (a fault at every filesystem operation of sessions over plain files, generated and encrypted images: never altered or unannounced bytes)",
   "assumptions": _CONN_ASSUME + ["Content.read (pattern + overlays spliced) is the model's notion of 'the stored bytes'; tied to the real files byte-for-byte by the differential"],
  },
  "C03": {
